@@ -243,6 +243,19 @@ func checkC17(c *Ctx, r *Report) {
 	// connection (rules shared with C10, C13)
 	checkClosureExits(c, r)
 
+	// the library's two multi-request retrievals start from scratch on every call and every
+	// pass: the cipher-suite listing asks for list index 0 first and collects into a buffer of
+	// its own (rule shared with C16, C12, C05); each SDR walk fills a map it allocated itself
+	// (shared with C14)
+	checkChunkLoop(c, r)
+	r.Rule("walk-fills-own-map", "each pass over the SDR repository fills a map allocated by that pass", 1)
+	if walk, mu := c.findSDRWalk(); walk == nil || mu == nil {
+		r.Lost("SDR walk (function updating a bmc.SDRRepository map)")
+	} else {
+		r.Fn(c.FnName(walk))
+		checkWalkFreshMap(c, r, walk, mu)
+	}
+
 	checkResponseAlwaysDecoded(c, r)
 
 	// completion code read after the exchange (same rule as C10.code-from-message-layer)
